@@ -305,6 +305,8 @@ Definition apply_conv (id : Z) (v : val) (r : row) : res val :=
     if py_eq v (vint 2) || py_eq v (VStr [120]) then Err (UserErr 3) else Ok (VSeq false [VStr (zs "ok"); v])
   else if id =? 5 then Ok v
   else if id =? 6 then Ok (VSeq false [v; vint (zlen r)])                                           (* pass_row: (v, len(row)) *)
+  else if id =? 8 then                                                      (* pass_row: fails on 2 and 'x', else ('ok', v, len(row)) *)
+    if py_eq v (vint 2) || py_eq v (VStr [120]) then Err (UserErr 8) else Ok (VSeq false [VStr (zs "ok"); v; vint (zlen r)])
   else if id =? 7 then                                                      (* {0:'zero', 1:'one', 'b':'bee', None:'none'}[v] *)
     if py_eq v (vint 0) then Ok (VStr (zs "zero"))
     else if py_eq v (vint 1) then Ok (VStr (zs "one"))
